@@ -99,6 +99,18 @@ func main() {
 				return ok && id.Name == "c" && (sel.Sel.Name == "rw" || sel.Sel.Name == "conn")
 			}, 5, "touching c.rw / c.conn in batched/conn.go")
 		}
+		if rw.file == "handlers/inmem/inmem.go" {
+			// every access to the shared map: what excludes two connections from each other must be
+			// the lock, not the absence of a scheduling point
+			injectYields(fset, f, func(n ast.Node) bool {
+				sel, ok := n.(*ast.SelectorExpr)
+				if !ok {
+					return false
+				}
+				id, ok := sel.X.(*ast.Ident)
+				return ok && id.Name == "h" && sel.Sel.Name == "data"
+			}, 5, "touching h.data in handlers/inmem/inmem.go")
+		}
 		if rw.file == "metrics/histograms.go" {
 			// between taking a period's data out of a histogram and sorting / reading it
 			injectYields(fset, f, func(n ast.Node) bool {
@@ -232,7 +244,7 @@ func extra(repo, work string, replace map[string]string) {
 	if err != nil {
 		die("%v", err)
 	}
-	for _, need := range []string{"var singleton = &Handler{", "data  map[string]entry", "exptime uint32", "flags   uint32", "data    []byte"} {
+	for _, need := range []string{"data  map[string]entry", "mutex *sync.RWMutex", "exptime uint32", "flags   uint32", "data    []byte", "func New() (handlers.Handler, error)"} {
 		if !strings.Contains(string(inm), need) {
 			die("handlers/inmem/inmem.go no longer contains %q: the C17 export cannot be generated", need)
 		}
@@ -241,33 +253,48 @@ func extra(repo, work string, replace map[string]string) {
 
 import (
 	"fmt"
+	"reflect"
 	"sort"
+
+	"github.com/netflix/rend/handlers"
 )
 
-// VerifSnapshot renders the singleton's map without taking its lock (harness use only).
-func VerifSnapshot() string {
-	ks := make([]string, 0, len(singleton.data))
-	for k := range singleton.data {
+func verifH(h handlers.Handler) *Handler {
+	if v, ok := h.(*Handler); ok {
+		return v
+	}
+	panic(fmt.Sprintf("inmem.New returned a %T", h))
+}
+
+// VerifSnapshot renders the map behind a handler without taking its lock (harness use only).
+func VerifSnapshot(hh handlers.Handler) string {
+	h := verifH(hh)
+	ks := make([]string, 0, len(h.data))
+	for k := range h.data {
 		ks = append(ks, k)
 	}
 	sort.Strings(ks)
 	out := ""
 	for _, k := range ks {
-		e := singleton.data[k]
+		e := h.data[k]
 		out += fmt.Sprintf("%q=%q/%x/%d;", k, e.data, e.flags, e.exptime)
 	}
 	return out
 }
 
-// VerifReset empties the singleton's map.
-func VerifReset() {
-	for k := range singleton.data {
-		delete(singleton.data, k)
+// VerifReset empties the map behind a handler.
+func VerifReset(hh handlers.Handler) {
+	h := verifH(hh)
+	for k := range h.data {
+		delete(h.data, k)
 	}
 }
 
-// VerifMutex returns the singleton's lock (identity only).
-func VerifMutex() interface{} { return singleton.mutex }
+// VerifMutex returns the handler's lock and the identity of its map.
+func VerifMutex(hh handlers.Handler) (interface{}, uintptr) {
+	h := verifH(hh)
+	return h.mutex, reflect.ValueOf(h.data).Pointer()
+}
 `
 	dst = filepath.Join(work, "inmem__verif_export.go")
 	if err := os.WriteFile(dst, []byte(exp), 0o644); err != nil {
